@@ -828,3 +828,175 @@ def mon_c10(case_line, acts):
         if res.startswith('err') and not res.startswith('err NotReady') and a.code in (1, 2, 3, 5, 6, 7) and st.get('live') == '0':
             tainted = True
     return out
+
+
+# ---------------------------------------------------------------- C04: inbound delivery and acknowledgement
+def _parse_inbound_publish(first, body):
+    """-> dict or None (not well-formed enough for this monitor to reason about)"""
+    try:
+        flags = first & 15
+        q = (flags >> 1) & 3
+        if q == 3 or len(body) < 2:
+            return None
+        tl = (body[0] << 8) | body[1]
+        i = 2 + tl
+        if i > len(body):
+            return None
+        topic = bytes(body[2:i])
+        topic.decode('utf-8')
+        if b'\x00' in topic:
+            return None
+        pid = None
+        if q:
+            if i + 2 > len(body):
+                return None
+            pid = (body[i] << 8) | body[i + 1]
+            i += 2
+            if pid == 0:
+                return None
+        n, j = mqttspec.varint(body, i)
+        if j + n > len(body):
+            return None
+        return {'q': q, 'retain': flags & 1, 'dup': (flags >> 3) & 1, 'topic': topic, 'pid': pid,
+                'props': bytes(body[j:j + n]), 'payload': bytes(body[j + n:])}
+    except Exception:
+        return None
+
+
+def _ordered_events(acts):
+    """per action: the client packets completed on the wire, the broker packets completely read and the successful
+    flushes, in the order in which they happened"""
+    per = []
+    wire = bytearray(); inb = bytearray(); wpos = ipos = 0
+    for a in acts:
+        seq = []
+        if a.code == 0:
+            wire = bytearray(); inb = bytearray(); wpos = ipos = 0
+        for e in a.events:
+            if e[0] == 'w' and e[2]:
+                wire += bytes.fromhex(e[3])
+                frames, tail, err = mqttspec.split_stream(wire[wpos:])
+                for first, body, raw in frames:
+                    try:
+                        pk = mqttspec.parse_packet(first, body, strict_flags=False)
+                    except mqttspec.Malformed as ex:
+                        pk = {'type': 'MALFORMED', 'error': str(ex), 'first': first}
+                    pk['raw'] = raw
+                    seq.append(('tx', pk))
+                    wpos += len(raw)
+            elif e[0] == 'r' and e[2]:
+                inb += bytes.fromhex(e[3])
+                for first, body in parse_server_packets(inb[ipos:]):
+                    seq.append(('rx', first, body))
+                    ipos += 1 + len(body) + len(_varint_bytes(len(body)))
+            elif e[0] == 'f' and e[1] == 'ok':
+                seq.append(('flush',))
+        per.append(seq)
+    return per
+
+
+def mon_c04(case_line, acts):
+    """reference model of the receiver side of MQTT 5 QoS 1/2 against what the implementation delivered and what it
+    put on the wire.  Assumes (and stops where it is not so) a broker that sends well-formed packets, keeps within
+    the advertised Receive Maximum of 8 and a Maximum Packet Size that admits the acknowledgements."""
+    out = []
+    pending = set()    # inbound QoS 2 identifiers between PUBLISH and PUBREL
+    owed = []          # acknowledgements owed, in arrival order: (type nibble, pid, reason)
+    sent = 0           # owed[:sent] seen on the wire of the current connection (or flushed earlier)
+    done = 0           # owed[:done] flushed
+    unacked = {}       # inbound QoS>0 exchanges not finished by the client (Receive Maximum premise)
+    per = _ordered_events(acts)
+    for i, a in enumerate(acts):
+        expected_msgs = []
+        stop = False
+        if a.code == 0:
+            sent = done
+        for ev in per[i]:
+            if ev[0] == 'flush':
+                done = sent
+            elif ev[0] == 'tx':
+                pk = ev[1]
+                if pk['type'] in ('PUBACK', 'PUBREC', 'PUBCOMP'):
+                    typ = {'PUBACK': 4, 'PUBREC': 5, 'PUBCOMP': 7}[pk['type']]
+                    got = (typ, pk.get('pid'), pk.get('reason', 0))
+                    if sent < len(owed) and owed[sent] == got:
+                        sent += 1
+                        if typ in (4, 7) or got[2] >= 0x80:
+                            unacked.pop(got[1], None)
+                    else:
+                        exp = owed[sent] if sent < len(owed) else None
+                        out.append(V('acknowledgement %s id %s reason 0x%02x on the wire; next owed in arrival order: %s'
+                                     % (pk['type'], got[1], got[2], exp)))
+                        return out
+            elif ev[0] == 'rx':
+                first, body = ev[1], ev[2]
+                typ = first >> 4
+                if typ == 3:
+                    m = _parse_inbound_publish(first, body)
+                    if m is None:
+                        return out
+                    if m['q'] == 0:
+                        expected_msgs.append(m)
+                    elif m['q'] == 1:
+                        owed.append((4, m['pid'], 0x91 if m['pid'] in pending else 0))
+                        unacked[m['pid']] = 1
+                        expected_msgs.append(m)
+                    elif m['pid'] in pending:
+                        owed.append((5, m['pid'], 0))
+                    elif len(pending) >= 8:
+                        return out
+                    else:
+                        pending.add(m['pid'])
+                        unacked[m['pid']] = 2
+                        owed.append((5, m['pid'], 0))
+                        expected_msgs.append(m)
+                    if len(unacked) > 8:
+                        return out
+                elif typ == 6:
+                    if len(body) < 2:
+                        return out
+                    pid = (body[0] << 8) | body[1]
+                    if pid in pending:
+                        pending.discard(pid)
+                        owed.append((7, pid, 0))
+                    else:
+                        owed.append((7, pid, 0x92))
+                elif typ == 14:
+                    return out
+        res = a.result or ''
+        if res.startswith('err InflightExhausted') or res.startswith('err PacketTooLarge') or res in ('PANIC', 'FUEL'):
+            return out
+        if res.startswith('ok msg'):
+            f = dict(x.split('=', 1) for x in res.split(' ')[2:] if '=' in x)
+            if not expected_msgs:
+                out.append(V('a message was delivered (%s) that no inbound PUBLISH read by this call accounts for'
+                             % res[:80]))
+                return out
+            m = expected_msgs.pop(0)
+            want = {'t': 'x' + m['topic'].hex(), 'p': 'x' + m['payload'].hex(), 'q': str(m['q']), 'r': str(m['retain']),
+                    'props': 'x' + m['props'].hex()}
+            bad = [k for k in want if f.get(k) != want[k]]
+            if bad:
+                out.append(V('delivered message differs from the PUBLISH sent in %s: got %s, sent %s'
+                             % (bad, {k: f.get(k) for k in bad}, {k: want[k] for k in bad})))
+                return out
+            if expected_msgs:
+                out.append(V('two deliverable PUBLISH packets were consumed by one call, one message surfaced'))
+                return out
+        elif expected_msgs and res.startswith('ok'):
+            m = expected_msgs[0]
+            out.append(V('inbound PUBLISH (QoS %d, id %s, topic %s) was consumed by a call returning "%s": not delivered'
+                         % (m['q'], m['pid'], m['topic'].hex(), res[:40])))
+            return out
+        elif expected_msgs:
+            return out          # the call failed or was dropped after reading the packet: outside this monitor
+        if a.code == 0 and res.startswith('ok connected'):
+            pending.clear(); owed = []; sent = done = 0; unacked = {}
+        stv = a.state or {}
+        if stv.get('live') == '1' and 'srv' in stv and res.startswith('ok'):
+            have = sorted(int(x) for x in list_field(stv['srv']))
+            if have != sorted(pending):
+                out.append(V('pending inbound QoS 2 identifiers are %s; the exchanges on the wire leave %s pending'
+                             % (have, sorted(pending))))
+                return out
+    return out
